@@ -106,8 +106,14 @@ def py_value(v):
     return v
 
 
-def render_page(prog, dynamic=False):
-    """Variant 1/2: the page template rendered with Template.render(Context)."""
+def ctx_fingerprint(ctx):
+    return (len(ctx.dicts), sorted((k, repr(v)) for k, v in ctx.flatten().items()), len(ctx.render_context.dicts),
+            [sorted(d.keys()) for d in ctx.dicts])
+
+
+def render_page(prog, dynamic=False, ctx_report=None):
+    """Variant 1/2: the page template rendered with Template.render(Context).
+    ctx_report: optional list; receives (before, after) fingerprints of the caller's Context."""
     import djsetup
     from django.template import Context, Template
     with djsetup.components_settings(context_behavior=prog["mode"]):
@@ -116,7 +122,13 @@ def render_page(prog, dynamic=False):
             src = G.d_tpls(prog["page"], dynamic)
 
             def go():
-                return Template(src).render(Context(dict(prog["ctx"])))
+                ctx = Context(dict(prog["ctx"]))
+                before = ctx_fingerprint(ctx)
+                try:
+                    return Template(src).render(ctx)
+                finally:
+                    if ctx_report is not None:
+                        ctx_report.append((before, ctx_fingerprint(ctx)))
             return outcome_of(go)
         finally:
             cleanup()
